@@ -149,6 +149,21 @@ theorem query_forms_covered :
     (∀ f ∈ Gen.QueryForms.queryForms, f ∈ Gen.QueryForms.batteryForms) ∧
     (∀ f ∈ Gen.QueryForms.batteryForms, f ∈ Gen.QueryForms.queryForms) := by decide
 
+/-- **No matcher key is outside the then-vs-AS-OF comparison.** A present-day pattern `?x KIND {key: v}`
+answers through the index column `column_of` names; the same pattern bound to a coordinate re-checks the
+key against the rendered view of the version row at the path `view_key` names — two tables in
+`kql/matching.rs`. Every (kind, key) pair either table knows in the current source (`matcherKeys`,
+regenerated on every run, "any kind" expanded over the kinds `match_element` is called for) is
+constrained by some query of the replayed battery (`batteryKeys`, verified by the harness against its
+own query texts), the battery claims no pair the engine lacks, and for every pair `column_of` knows the
+path `view_key` reads exists in that kind's rendered view at the level it is read at
+(`gen_view_paths_exist`, from `view.rs`). -/
+theorem matcher_keys_covered :
+    (∀ k ∈ Gen.QueryForms.matcherKeys, k ∈ Gen.QueryForms.batteryKeys) ∧
+    (∀ k ∈ Gen.QueryForms.batteryKeys, k ∈ Gen.QueryForms.matcherKeys) ∧
+    Gen.QueryForms.viewPathsMissing = [] :=
+  ⟨by decide, by decide, Gen.QueryForms.gen_view_paths_exist⟩
+
 /-- The schema environment of a past point: for every history of statements **and schema
 activations**, every point `k` of it and every later suffix (further statements, further
 activations): `schema_version_at` over the final activation registry at the coordinate of point `k`
